@@ -145,6 +145,19 @@ func c11h2Gen() (string, error) {
 	}
 	s += "/-- MServerConn.processHeaders: a new stream whose id does not exceed every earlier one is a PROTOCOL_ERROR connection error; otherwise maxClientStreamID := id -/\n"
 	s += "def headersStale (id maxClientStreamID : Int) : Bool := " + stale + "\n"
+	// ---- processResetStream
+	pr := findFunc(f, "MServerConn", "processResetStream")
+	if pr == nil {
+		return "", fmt.Errorf("MServerConn.processResetStream not found")
+	}
+	rn := names()
+	rn["f.StreamID"] = "id"
+	g, err = c11h2Guard(pr, &Env{Names: rn, Calls: map[string]string{}}, "sc.state", "nil")
+	if err != nil {
+		return "", err
+	}
+	s += "/-- MServerConn.processResetStream: the RST_STREAM frame is discarded before the stream-state test (an idle stream is a PROTOCOL_ERROR connection error) -/\n"
+	s += "def rstDiscarded (inGoAway : Bool) (goAwayCode id maxClientStreamID : Int) : Bool := " + g + "\n"
 	// ---- goAway
 	ga := findFunc(f, "MServerConn", "goAway")
 	if ga == nil || len(ga.Type.Params.List) < 1 || len(ga.Type.Params.List[0].Names) < 1 {
